@@ -69,9 +69,53 @@ def bits_rule(ctx, facts, cfg):
             ctx.violation(rid, PP + '::max_payload', 'source', 'max_payload() does not return ParsedPacket.max_payload', site=f['at'], config=cfg)
 
 
+def opt_getter_bits_rule(ctx, facts, cfg):
+    """C04.b (bit-exact part): each OPT getter returns exactly the big-endian field the loader read, zero-extended - no mask, shift or swap on the way."""
+    rid = 'C04.b'
+    from analysis.bits import EnumV
+    T = layout.table()['opt']
+    spec = {'opt_rr_max_payload': T['udp_payload'], 'opt_rr_ext_rcode': T['ext_rcode'], 'opt_rr_edns_version': T['version'],
+            'opt_rr_edns_ext_flags': T['flags'], 'opt_rr_rdlen': T['rdlength']}
+    mem = {'R': [BV.sym('r%d_' % i, 8) for i in range(16)]}
+
+    def const_of(bv):
+        if not isinstance(bv, BV) or not all(b.is_const() for b in bv.bits):
+            raise Undecided('loader offset is not a constant')
+        return sum((b.tt & 1) << n for n, b in enumerate(bv.bits))
+
+    def be16(args, m):
+        k = const_of(args[1])
+        return EnumV('std::result::Result', 0, [BV(m['R'][k + 1].bits + m['R'][k].bits)])
+
+    def u8(args, m):
+        return EnumV('std::result::Result', 0, [m['R'][const_of(args[1])]])
+    models = {'DNSSector::be16_load': be16, 'DNSSector::u8_load': u8}
+    for g, (off, width) in sorted(spec.items()):
+        key = DS + '::' + g
+        f = facts.fn(key)
+        if f is None:
+            ctx.missing(rid, key)
+            continue
+        try:
+            r, _ = Interp(facts.fns, models).run(key, ['SELF'], mem)
+        except Undecided as e:
+            ctx.violation(rid, key, 'bits-undecided', 'cannot evaluate %s bit for bit: %s' % (g, e), kind='undecided', site=f['at'], config=cfg)
+            continue
+        got = r.items[0] if isinstance(r, EnumV) and r.vi == 0 and r.items else None
+        exp = []
+        for i in range(width):
+            exp = mem['R'][off + i].bits + exp
+        ok = isinstance(got, BV) and len(got.bits) >= len(exp) and all(gb is not TOP and gb == eb for gb, eb in zip(got.bits, exp)) and \
+            all(gb is not TOP and gb.is_const() and not (gb.tt & 1) for gb in got.bits[len(exp):])
+        ctx.instance(rid, '%s returns bytes [%d,%d) behind the owner name, big-endian, zero-extended, every bit unchanged' % (g, off, off + width), ok=ok, site=f['at'])
+        if not ok:
+            ctx.violation(rid, key, 'bits', '%s must return the %d-byte field at offset %d of the OPT record (RFC 6891 6.1.2) bit for bit; it returns %s' % (g, width, off, repr(got)[:160]), site=f['at'], config=cfg)
+
+
 def capture_rule(ctx, facts, cfg):
     rid = 'C04.b'
     layout.check_opt(ctx, facts, cfg, rid)
+    opt_getter_bits_rule(ctx, facts, cfg)
     key = DS + '::parse_opt'
     f = facts.fn(key)
     if f is None:
